@@ -10,6 +10,8 @@
 //	      a new connection; the calls of openwrite (tokens separated by '/') are issued INSIDE the
 //	      OnOpen callback, i.e. before addConn registers the descriptor with epoll.
 //	      dial=1: the connection is registered the way DialAsync does for a connect in progress
+//	      dial=2: … for a connect that finished at once (addDialer without a pending callback; the
+//	      openwrite calls run right after the registration, as the dial callback's goroutine would)
 //	      (addDialer: read+write interest, connected callback pending); the connect then completes
 //	      (EPOLLOUT) and the openwrite calls are issued inside the connected callback.
 //	O write <payload> K=<k>
@@ -650,6 +652,8 @@ func gen(g *lp.Gen) {
 		dial := ""
 		if g.Chance(1, 7) {
 			dial = " dial=1"
+		} else if g.Chance(1, 9) {
+			dial = " dial=2" // the connect finished at once
 		}
 		g.P("C typ=%s mode=%s maxwb=%d fsize=%d%s openwrite=%s", typ, mode, s.maxwb, s.fsize, dial, open)
 		if g.Chance(1, 5) {
@@ -756,6 +760,7 @@ type caseState struct {
 	key          strings.Builder
 	fromOpen     bool // a backlog was created inside the open callback
 	dial         bool // registered through addDialer
+	dialNow      bool // … for a connect that finished at once (no callback pending)
 	hadBacklog   bool // the previous observation saw an open conn with a non-empty queue
 	parkUsed     int   // park mode: answers the call had consumed when it parked (-1 = not in park mode)
 	edgeDue      bool  // ET: the kernel owes a writability report (ADD, or a refused/short write since the last one)
@@ -1092,6 +1097,9 @@ func (cs *caseState) state() string {
 					origin = "connected-callback"
 				}
 			}
+			if cs.dialNow {
+				origin = "immediate-dial"
+			}
 			orc("c04-quiescent-unarmed", "mode=%s backlog-origin=%s queue=%d items (%d bytes) registered=%v epollout=%v oneshot-disarmed=%v wadded=%v",
 				cs.mode, origin, len(st.Items), backlog, reg, events&syscall.EPOLLOUT != 0, disarmed, st.IsWAdded)
 			orc("c01-stranded", "mode=%s: %d bytes that the calls reported as accepted sit in the queue of an open conn and no EPOLLOUT is armed: without another call or input from the peer they never reach it (queue=%d items wadded=%v epollout=%v oneshot-disarmed=%v)",
@@ -1409,13 +1417,31 @@ func exec(e *lp.Exec) {
 					continue
 				}
 				e.Count("cases", "dialer")
+			} else if dl == "2" {
+				// DialAsync whose connect() finished at once: addDialer without a pending callback; the
+				// dial callback runs on its own goroutine afterwards (here: the open calls, right away)
+				if err := en.g.VerifAddDialer(c, nil); err != nil {
+					res("bad-op adddialer: %v", err)
+					cs.dead = true
+					continue
+				}
+				cs.registered = true
+				cs.dialNow = true
+				cs.edgeDue = true // EPOLL_CTL_ADD reports the current readiness
+				cs.v.Lock()
+				cs.refSeen = cs.v.Refusals
+				cs.v.Unlock()
+				for _, cl := range cs.openCalls {
+					cs.openRes = append(cs.openRes, cs.doCall(cl))
+				}
+				e.Count("cases", "dialer-immediate")
 			} else if _, err := en.g.AddConn(c); err != nil {
 				res("bad-op addconn: %v", err)
 				cs.dead = true
 				continue
 			}
 			cs.registered = true
-			if !cs.dial {
+			if !cs.dial && !cs.dialNow {
 				cs.edgeDue = true // EPOLL_CTL_ADD reports the current readiness
 				cs.v.Lock()
 				cs.refSeen = cs.v.Refusals
